@@ -33,7 +33,7 @@ def cond_flags(draw):
 
 def cond_worlds(tier):
     return specs.worlds(
-        policy=specs.greedy_policy(enforce=False), feasible=True, conditionals="heavy", max_jobs=10, max_graphs=2,
+        policy=specs.greedy_policy(enforce=False), feasible=True, conditionals="heavy", max_jobs=12, max_graphs=2,
         release_kinds=("fixed", "fixed", "poisson", "closed_loop"), flags=cond_flags(), deadline_variances=[[0, 0], [50, 300]],
     )
 
